@@ -360,7 +360,18 @@ def _built(which, what, idsel, psel, strsel):
         return fam[2](st or "m", params)
     if what == 2:
         return fam[3](rid, params)
-    return fam[4](rid, -32000, st, params)
+    if what == 3:
+        return fam[4](rid, -32000, st, params)
+    # typed objects built DIRECTLY, leaving `jsonrpc` (and every other optional member) to the model defaults
+    if what == 4:
+        return JM.JSONRPCRequest(id=rid, method=st or "m", params=params)
+    if what == 5:
+        return JM.JSONRPCNotification(method=st or "m")
+    if what == 6:
+        return JM.JSONRPCResponse(id=rid, result=params if params is not None else {})
+    if what == 7:
+        return JM.JSONRPCError(id=rid, error={"code": -32000, "message": st})
+    return JM.JSONRPCMessage(id=rid, method=st or "m")
 
 
 def wire_transports(which, what, idsel, psel, strsel):
